@@ -363,6 +363,16 @@ fn resolve_constants(exprs: &HashMap<&str, &SpannedExpr>) -> Result<HashMap<Stri
                         );
                     },
                     Err(e) => { 
+                        // a constant whose own definition failed is missing from `widths`: the hint of the "undeclared wire"
+                        // diagnostic that follows from it must not depend on which other constants were evaluated before
+                        let e = match e {
+                            Error::UndeclaredWireRead { name: missing, expr, .. } => {
+                                let close_name = find_close_names_in(&missing,
+                                    exprs.keys().cloned().filter(|k| *k != missing.as_str()));
+                                Error::UndeclaredWireRead { name: missing, expr, close_name }
+                            },
+                            other => other,
+                        };
                         errors.push(e);
                     },
                 }
